@@ -282,6 +282,9 @@ std::string readFile(const std::string &path, size_t maxBytes = 200000) {
 
 std::string g_tmpDir = "/verif/build/tmp";
 
+// true if `plan`, executed in a fresh process, completes or dies at another op than `op`
+bool planGetsPastOp(const Plan &plan, int op);
+
 // Map a crash to a verdict of the property under check, if that property
 // covers it (see DESIGN.md: crash attribution).
 bool crashVerdict(const std::string &prop, const Plan &plan, const CrashInfo &ci, Verdict &v) {
@@ -327,6 +330,25 @@ bool crashVerdict(const std::string &prop, const Plan &plan, const CrashInfo &ci
       v.prop = "C10";
       v.clause = "crash-under-fault";
       return true;
+    }
+    if (faulted && ci.cls != "timeout") {
+      // Any other death (assertion, signal, UBSan) of an op that carries an injected fault is
+      // attributed to C10 only if the fault is what kills it: the same plan with the faults of
+      // that op removed must get past that op in a fresh process.
+      Plan q = plan;
+      Op &qo = q.ops[m.op];
+      qo.enumThrow = 0;
+      qo.allocFail = -1;
+      std::vector<CbAction> keep;
+      for (auto &a : qo.actions)
+        if (!(a.kind <= CB_THROW_INT || a.kind == CB_POKE)) keep.push_back(a);
+      qo.actions = keep;
+      if (planGetsPastOp(q, m.op)) {
+        v.prop = "C10";
+        v.clause = "crash-under-fault";
+        v.detail += " (the same plan without the injected fault gets past this op)";
+        return true;
+      }
     }
   }
   if (prop == "C12" && m.opKind == 100) {
@@ -442,6 +464,11 @@ IsoResult runIsolated(const Plan &plan, double timeoutSec, const std::vector<Pla
   }
   unlink(errPath.c_str());
   return out;
+}
+
+bool planGetsPastOp(const Plan &plan, int op) {
+  IsoResult r = runIsolated(plan, 240.0);
+  return r.completed || r.crash.marker.op != op;
 }
 
 // The "violation class" of one isolated execution w.r.t. a property.
